@@ -21,25 +21,25 @@ CHECKS = {
          "All accessors agree on address and identity for every position 0..=len+1 and usize::MAX from every layout; a write through each mutable accessor changes exactly that position."),
  "C08": ("exploration", "3.8", "exhaustive next/next_back scripts against a double-ended queue model, exact len/size_hint at every step; proptest scripts over clone/nth/nth_back/rev/fold/count/last",
          "Every interleaving of next/next_back of length selected+2 over every range spelling from every layout, for iter, iter_mut, range, range_mut, into_iter and the Default iterators."),
- "C09": ("exploration", "3.9", "exhaustive drain scripts (range x next/next_back/adaptor script x drop) against the model by identity; sparse boundary space for larger capacities; compile-time must-reject witnesses that a Drain cannot be duplicated",
+ "C09": ("exploration", "3.9", "exhaustive drain scripts (range x next/next_back/adaptor script x drop; consumption through for_each / all / find_map / reduce with a panicking closure) against the model by identity; sparse boundary space for larger capacities; compile-time must-reject witnesses that a Drain cannot be duplicated",
          "Every range in every RangeBounds spelling x every consumption script from every layout; yielded ids, exact len, remaining contents and destruction of the un-yielded part are checked."),
  "C10": ("exploration", "3.10", "exhaustive drain scripts (including skipping consumers that run past either end) ending in mem::forget, validity predicate + follow-up history + ledger; zero-sized element engine; compile-time must-reject witnesses that a Drain cannot be duplicated",
          "The drain is forgotten after every prefix of every script; the buffer must stay a valid subset of the original contents minus the yielded elements, keep working, and nothing is ever destroyed twice."),
  "C11": ("exploration", "3.11", "exhaustive argument enumeration (indices 0..=N+1, usize::MAX, every bound pair, out-of-range skip counts) against the model's must-panic predicate, both directions; watchdog for termination; byte-stream engine; every by-reference operation on 4 MiB boxed buffers in an unoptimised build on 2 MiB stacks against a VecDeque model",
          "Every public operation with every index / bound combination: panics exactly when documented, state unchanged after a documented panic; termination observed under a watchdog."),
- "C12": ("exploration", "3.12", "reference-model PBT with ledger identity: moves keep ids, clones have fresh ids with the right origin, independent ownership; non-fused generated iterators; sparse boundary space for capacities up to 1000; 4 MiB boxed buffers in an unoptimised build",
+ "C12": ("exploration", "3.12", "reference-model PBT with ledger identity: moves keep ids, clones have fresh ids with the right origin, independent ownership; destructor faults among the discarded elements of array / iterator conversions; non-fused generated iterators; sparse boundary space for capacities up to 1000; 4 MiB boxed buffers in an unoptimised build",
          "Constructors and conversions for every source length 0..=2N+1 and every source/destination layout."),
  "C20": ("exploration", "3.20", "exhaustive relocation counting: surviving element identities whose address changed, against the documented bound",
          "Relocations are counted through element addresses before and after every listed operation from every layout."),
  "C13": ("exploration", "3.13", "exhaustive pairwise PBT: all capacity pairs x all layouts of both sides x all contents over a small alphabet, expected results computed from the logical sequences; Debug under 32 format strings; proptest for wider capacities",
          "Every split of one side into two physical segments meets every split of the other, for ==, partial_cmp, cmp, hash and all slice/array/reference partners, including NaN contents and heterogeneous element types."),
- "C14": ("exploration", "3.14", "reference-model PBT with a byte-queue model: exhaustive single and double steps with every size class from every layout, unoccupied bytes filled adversarially; proptest histories",
+ "C14": ("exploration", "3.14", "reference-model PBT with a byte-queue model: exhaustive single and double steps with every size class from every layout, unoccupied bytes filled adversarially; proptest histories; the byte-stream steps on a 4 MiB boxed buffer in an unoptimised build",
          "write/read/fill_buf/consume/flush (and the provided methods users call) with every length class from every layout of capacities 0..=8, then random histories up to capacity 256."),
  "C15": ("exploration", "3.15", "grammar-generated client programs compiled with rustc against the current tree; differential against the same program over VecDeque / arrays / slices plus the expectation table",
          "The quantifier is over programs: about 360 witness programs (borrow held, outlive, variance, auto traits, single ownership, const contexts, bound-free impls) are generated and compiled; must-reject programs must fail for a borrow/lifetime/trait reason while their must-accept twins compile."),
  "C16": ("exploration", "3.16", "differential PBT: embedded-io / embedded-io-async calls vs std::io calls on a twin buffer in the same state (counts, bytes, contents, physical layout), under the three feature builds; async polled once; for builds of the crate without std, trace digests of the same generated histories compared across builds",
          "The C14 case space is replayed through the embedded-io traits with a std::io twin; counts, bytes, fill_buf slices and contents must be identical, never Err, never Pending."),
- "C17": ("exploration", "3.17", "PBT with a counting global allocator around every single crate call (including provided std::io methods and their error paths), in three feature configurations; core-only sysroot builds and a freestanding no-allocator program with a seeded model-based self-check for the no_std sentence",
+ "C17": ("exploration", "3.17", "PBT with a counting global allocator around every single crate call (including provided std::io methods and their error paths), in three feature configurations; core-only sysroot builds, no-std builds of every embedded-io feature combination, and a freestanding no-allocator program with a seeded model-based self-check for the no_std sentence",
          "Every operation (including creation, each step and the drop of iterators/drains) performs zero allocations in builds of the crate with {std}, {} and {alloc}; the library also builds against a core-only and a core+alloc sysroot."),
  "C18": ("exploration", "3.18", "differential PBT across builds: per-unit trace digests of the complete C01-C12/C20 case spaces, stable default build vs nightly + unstable feature; the unstable build also runs every oracle",
          "Same generated cases (pure function of the seed) in both builds; results, contents, panic flags, lifecycle events and injected-fault outcomes must be identical."),
